@@ -35,8 +35,8 @@ CLAIMED.update({
    technique='Coq proof (history invariant with ghost provenance, induction over operation sequences); bit-exact correspondence', ref='6 C03'),
  'C11': dict(text='Machine-checked: a run appends exactly the instants t0 + k*dt, k = 1..round(T/dt) (a prefix with a stop condition), t0 = 0 for a fresh simulation and the previous final instant in dt\'s unit for a continued one; over the reals consecutive instants are exactly dt apart, the last is t0 + n*dt and none exceeds it, and round of an exact integer quotient is that integer. Long decimal grids (thousands of steps) are compared with gearpy through run_grid.', note=SOLVER_NOTE + ' The theorem is about the count-based grid introduced by the fix commits for D1/D2; binary64 rounding of T/dt near a half-integer is outside the real-number statement and covered by the exact-rational search oracle.',
    technique='Coq proof (loop/run specification, grid lemmas over R); bit-exact correspondence incl. long grids', ref='6 C11'),
- 'C12': dict(text='Machine-checked: stepping over concatenated grids equals stepping over them in sequence, hence run(T1); continue(T2) with the same step equals run(T1+T2) as whole states whenever the grids concatenate; the first instant of a rerun after reset records the same observable values whenever position, speed and duty cycle agree (the left-over torque/acceleration/current and the cleared flag are proved irrelevant). Cross-unit continuation and the induction over later instants of a rerun are _partial (correspondence + exact metamorphic search); the full rerun statement is refuted by finding D4 (witness evaluated in the model).', note=SOLVER_NOTE,
-   technique='Coq proof (fold concatenation, state equality) + refuted witness by vm_compute; bit-exact correspondence on schedules; metamorphic search', ref='6 C12'),
+ 'C12': dict(text='Machine-checked: stepping over concatenated grids equals stepping over them in sequence, hence run(T1); continue(T2) with the same step equals run(T1+T2) as whole states whenever the grids concatenate; reset, optionally a new Solver, re-applying the initial position and speed, and the same run reproduce the original history in every observable field of every instant together with the live values and the lock flag, for every chain, load, rule set, stop condition, dt and T, provided the duty cycle recorded at instant 0 (which reset restores) is the one the run started from; without that proviso the statement is refuted by finding D4 (witness evaluated in the model). Cross-unit continuation is _partial (correspondence + exact metamorphic search).', note=SOLVER_NOTE,
+   technique='Coq proof (fold concatenation, state equality, simulation relation between run and rerun) + refuted witness by vm_compute; bit-exact correspondence on schedules incl. the histories at every reset; metamorphic search', ref='6 C12'),
  'C13': dict(text='Machine-checked for every reachable recorded instant: without a self-locking mating the flag is never set; duty cycle in force zero => held; held => all speeds and accelerations are the zero constants; not held => motor speed not below (above) zero for positive (negative) duty cycle in force; a release happens only when the previously recorded motor net torque has the strict sign of the duty cycle in force.', note=SOLVER_NOTE + ' "Duty cycle in force" is the motor attribute at the lock test (previous recorded value or the user-set one), the reading under which the property can hold. The self-locking flag of the powertrain is an input of this model; its derivation from friction and geometry is C10/C20.',
    technique='Coq proof (case analysis of the lock decision + history invariant); bit-exact correspondence incl. the private flag', ref='6 C13'),
  'C14': dict(text='Machine-checked: arbitration returns the default 1 with no proposal, the saturated proposal with exactly one, ValueError with two or more; the duty cycle recorded at a controlled instant is that arbitration of the proposals at that instant; every recorded duty cycle of every reachable state passes the setter\'s range test -1 <= p <= 1 (so in binary64 it is not NaN).', note=SOLVER_NOTE + ' About the setter as repaired by the D10 fix commit.',
@@ -88,7 +88,7 @@ CLAIMED.update({
 })
 
 CLAIMED.update({
- 'C07': dict(text='_partial by design of what could be mechanised: machine-checked over the reals that every operation of the regenerated quantity layer the models use (number*quantity, quantity*number, /number, +, -, quantity*quantity, quantity/quantity, same-kind ratio, conversion) is a congruence for "same kind family and same SI magnitude", that every comparison gives the same answer for re-expressed operands whenever the SI magnitudes differ by more than the tolerance band of the larger unit (the formal content of the property\'s exclusion clause), and that the motor law, the step count of a run and the cos/tan of an angle depend on SI magnitudes only. The lifting of these congruences through a whole run is not mechanised.',
+ 'C07': dict(text='_partial by design of what could be mechanised: machine-checked over the reals that every operation of the regenerated quantity layer the models use (number*quantity, quantity*number, /number, +, -, quantity*quantity, quantity/quantity, same-kind ratio, conversion) is a congruence for "same kind family and same SI magnitude", that every comparison gives the same answer for re-expressed operands whenever the SI magnitudes differ by more than the tolerance band of the larger unit (the formal content of the property\'s exclusion clause), and that the motor law, the step count of a run and the cos/tan of an angle depend on SI magnitudes only. Whole runs: in the regime where the solver model is proved to be the Euler recurrence (never held, constant duty cycle above the dead zone, constant step and load; any chain, units and schedule) two descriptions of the same system record output speeds and positions of equal SI magnitude at every instant (C07_whole_run_partial). Outside that regime the lifting through a whole run is not mechanised.',
    note='Whole-run coverage comes from (a) the bit-exact correspondences of all four model families (solver, motor, relations, gears), whose generators draw every input quantity in a random unit of its kind (so unit-dependent behaviour of the code that the unit-faithful models do not share is a disagreement; this is how D1/D2/D7 were found before they were repaired), and (b) the metamorphic search on the implementation: all input quantities of a scenario re-expressed in other units (unit lists cycled), SI outputs compared at 1e-6 relative, pairs with a discrete decision within rounding of its threshold skipped. Known finding D5 (absolute comparison tolerance in the left unit) makes equal helix angles / modules in different units compare as different: reported as KNOWN-FINDING, not repaired.',
    technique='Coq proof of SI-congruence of the regenerated quantity layer and of formula-level components; bit-exact correspondences with random units; metamorphic search', ref='6 C07'),
 })
